@@ -783,6 +783,41 @@ func sweepC19Totals(c *core.Ctx) {
 	}
 }
 
+// extremeLabelsC19: label VALUES are arbitrary finite numbers: huge values of equal sign in one
+// batch (their sum overflows), the largest finite value, subnormals, negative zero vs zero
+// (equal), in every partition of the same data.
+func extremeLabelsC19(c *core.Ctx) {
+	P := []float64{1e308, 1.5e308, -1.7e308, math.MaxFloat64, 5e-324, 0, 1e308, -1e308, 2, 1.7e308}
+	T := []float64{1e308, 1.5e308, -1.7e308, math.MaxFloat64, 5e-324, math.Copysign(0, -1), 1.1e308, 1e308, 2, 1.7e308}
+	want := 0
+	for i := range P {
+		if P[i] == T[i] {
+			want++
+		}
+	}
+	n := len(P)
+	for cut1 := 0; cut1 <= n; cut1++ {
+		for cut2 := cut1; cut2 <= n; cut2++ {
+			cut1, cut2 := cut1, cut2
+			c.Case(fmt.Sprintf("extreme/%d,%d", cut1, cut2), true, func() core.Verdict {
+				m := metrics.NewAccuracy()
+				for _, r := range [][2]int{{0, cut1}, {cut1, cut2}, {cut2, n}} {
+					if r[0] == r[1] {
+						continue
+					}
+					if err, _ := c19Apply(m, c19Ev{Kind: "batch", P: P[r[0]:r[1]], T: T[r[0]:r[1]]}); err != nil {
+						return core.Fail("a valid batch of finite labels %v / %v was rejected: %v", P[r[0]:r[1]], T[r[0]:r[1]], err)
+					}
+				}
+				if r, _ := m.Result(); r != float64(want)/float64(n) {
+					return core.Fail("labels %v vs %v in batches cut at %d and %d: Result %v, expected %d/%d", P, T, cut1, cut2, r, want, n)
+				}
+				return core.Pass()
+			})
+		}
+	}
+}
+
 // producedC19: predictions / targets that are results of operations (every
 // producer of the composition cases, comparison results, tracked tensors), and
 // the same tensor object as prediction AND target.
